@@ -83,7 +83,20 @@ theorem limitWith_longest {α : Type} {test : Int → Bool} {stop : Int → Int}
     rw [List.prefix_take_iff]
     exact ⟨hq, hl⟩
 
-theorem parseArray_spec (fot : List Char → Option UInt64) (t : Ty) :
+/-- What the property needs from the early `return None` of `OrsoTypes.parse` (test extracted from
+the source): it is taken for `None`, and for nothing else (whatever the value's truthiness). -/
+structure NullFacts : Prop where
+  onNone : Gen.Cast.nullGuard True True
+  onlyNone : ∀ falsy : Prop, ¬ Gen.Cast.nullGuard False falsy
+
+theorem parseVia_none (N : NullFacts) (run : Val → Except Exc Val) : parseVia run none = .ok none := by
+  simp only [parseVia, N.onNone, if_true]
+
+theorem parseVia_some (N : NullFacts) (run : Val → Except Exc Val) (v : Val) :
+    parseVia run (some v) = (run v).bind fun r => .ok (some r) := by
+  simp only [parseVia, N.onlyNone, if_false]
+
+theorem parseArray_spec (N : NullFacts) (fot : List Char → Option UInt64) (t : Ty) :
     ∀ (xs rs : List (Option Val)), parseArray fot (some t) xs = .ok rs →
       rs.length = xs.length ∧
       ∀ i (h : i < xs.length) (h' : i < rs.length), parse fot t xs[i] = .ok rs[i] ∧ (xs[i] = none → rs[i] = none)
@@ -101,14 +114,14 @@ theorem parseArray_spec (fot : List Char → Option UInt64) (t : Ty) :
       | ok rs' =>
         rw [hr] at h; simp only [bind_ok] at h
         cases h
-        obtain ⟨hl, hi⟩ := parseArray_spec fot t xs rs' hr
+        obtain ⟨hl, hi⟩ := parseArray_spec N fot t xs rs' hr
         refine ⟨by simp [hl], ?_⟩
         intro i h1 h2
         cases i with
         | zero =>
           simp only [List.getElem_cons_zero]
           refine ⟨hx, ?_⟩
-          intro hn; subst hn; simp [parse] at hx; exact hx.symm
+          intro hn; subst hn; rw [parse, parseVia_none N] at hx; cases hx; rfl
         | succ j =>
           simp only [List.getElem_cons_succ]
           exact hi j (by simpa using h1) (by simpa using h2)
@@ -254,6 +267,20 @@ theorem factory_fits (F : FactoryFacts) (p s : Nat) (neg : Bool) (c : Nat) (e : 
   rw [F.prec p, if_neg (by omega)]
   simp only [created, Int.toNat_natCast, roundTo_id p neg c e hc, F.scale s hs, quantize_up p s neg c e he hd]
 
+/-- The same with the scale capped as the source caps it (`hcap`, proved in Props from the generated
+expressions): any declared scale, the result is quantised to `min s 28` places. -/
+theorem factory_fits_cap (F : FactoryFacts)
+    (hcap : ∀ s : Nat, Gen.Cast.quantExp (Gen.Cast.quantScale s) = -((min s 28 : Nat) : Int))
+    (p s : Nat) (neg : Bool) (c : Nat) (e : Int) (hp : 1 ≤ p)
+    (he : -((min s 28 : Nat) : Int) ≤ e) (hc : numDigits c ≤ p)
+    (hd : numDigits (c * 10 ^ (e + (min s 28 : Nat)).toNat) ≤ p) :
+    factory p s (.inr (.fin neg c e))
+      = .ok (.dec (.fin neg (c * 10 ^ (e + (min s 28 : Nat)).toNat) (-((min s 28 : Nat) : Int)))) := by
+  unfold factory
+  rw [F.prec p, if_neg (by omega)]
+  simp only [created, Int.toNat_natCast, roundTo_id p neg c e hc, hcap s,
+    quantize_up p (min s 28) neg c e he hd]
+
 theorem factory_text (F : FactoryFacts) (p s : Nat) (t : List Char)
     (hnd : (!t.isEmpty && allDigits t) = false) (d : Dec)
     (ht : decOfText (stripD t) = some d) (hp : 1 ≤ p) :
@@ -261,5 +288,57 @@ theorem factory_text (F : FactoryFacts) (p s : Nat) (t : List Char)
   unfold factory
   rw [F.prec p, if_neg (by omega), if_neg (by omega)]
   simp only [created, padText, hnd, Bool.false_eq_true, if_false, ht, Option.map_some]
+
+/-! ### ASCII text as bytes -/
+
+/-- The bytes that spell an ASCII text. -/
+def asciiBytes (s : List Char) : List UInt8 := s.map fun c => UInt8.ofNat c.toNat
+
+theorem asciiBytes_all (s : List Char) (h : ∀ c ∈ s, c.toNat < 128) :
+    (asciiBytes s).all (· < 128) = true := by
+  simp only [asciiBytes, List.all_map, List.all_eq_true, Function.comp]
+  intro c hc
+  have := h c hc
+  simp only [decide_eq_true_eq, UInt8.lt_iff_toNat_lt, UInt8.toNat_ofNat']
+  have e : (128 : UInt8).toNat = 128 := rfl
+  omega
+
+theorem asciiChars_asciiBytes (s : List Char) (h : ∀ c ∈ s, c.toNat < 128) :
+    asciiChars (asciiBytes s) = s := by
+  simp only [asciiChars, asciiBytes, List.map_map]
+  conv => rhs; rw [← List.map_id s]
+  apply List.map_congr_left
+  intro c hc
+  have := h c hc
+  simp only [Function.comp, id, UInt8.toNat_ofNat']
+  have e : c.toNat % 2 ^ 8 = c.toNat := Nat.mod_eq_of_lt (by omega)
+  rw [e]
+  exact Char.ofNat_toNat c
+
+theorem isDigit_ascii (c : Char) (h : c.isDigit = true) : c.toNat < 128 := by
+  simp only [Char.isDigit, Bool.and_eq_true, decide_eq_true_eq] at h
+  have h2 := h.2
+  rw [UInt32.le_iff_toNat_le] at h2
+  have e : ('9' : Char).val.toNat = 57 := by decide
+  have e2 : c.toNat = c.val.toNat := rfl
+  omega
+
+theorem renderInt_ascii (n : Int) : ∀ c ∈ renderInt n, c.toNat < 128 := by
+  intro c hc
+  unfold renderInt renderNat at hc
+  split at hc
+  · rcases List.mem_cons.mp hc with rfl | hc
+    · decide
+    · exact isDigit_ascii c (toDigits_isDigit _ c hc)
+  · exact isDigit_ascii c (toDigits_isDigit _ c hc)
+
+/-! ### arrays of already-typed values, element classes -/
+
+theorem parseArray_identity (fot : List Char → Option UInt64) (t : Ty) :
+    ∀ (xs : List (Option Val)), (∀ x ∈ xs, parse fot t x = .ok x) → parseArray fot (some t) xs = .ok xs
+  | [], _ => rfl
+  | x :: xs, h => by
+    simp only [parseArray, h x (List.mem_cons_self ..), bind_ok,
+      parseArray_identity fot t xs (fun y hy => h y (List.mem_cons_of_mem _ hy))]
 
 end Cast
